@@ -5,8 +5,8 @@ echo "== suite with change:"; go build ./... && go build -tags verif ./... && go
 go test -count=1 -run '^TestSeedDemo$' ./... >/tmp/seed_with.txt 2>&1; echo "== demo with change: exit $? ($(grep -c -- '--- FAIL' /tmp/seed_with.txt) FAIL lines)"
 mv seed_demo_test.go /tmp/seed_demo_test.go.keep
 echo "== suite with change, without demo file:"; go test -count=1 ./... 2>&1 | grep -E "^(--- FAIL|ok|FAIL)" | head -3
-git stash -q
+git diff > /tmp/confirmseed.patch; git checkout -- .
 mv /tmp/seed_demo_test.go.keep seed_demo_test.go
 go test -count=1 -run '^TestSeedDemo$' ./... >/tmp/seed_without.txt 2>&1; echo "== demo without change: exit $?"
-git stash pop -q
+git apply /tmp/confirmseed.patch
 git diff --stat | tail -1
